@@ -28,6 +28,7 @@ REGISTRY['C01'] = {
 REGISTRY['C05'] = {
     'v': ['c05_routes', 'c05_child', 'c05_aspa', 'c05_bgpsec'],
     'k': [],
+    'k_thorough': ['k_aspa_def', 'k_roa_updates'],
     'level_text': 'BGPsec router-key definition deltas (whole of BgpSecDefinitions::process_updates): accepted only if every removed key is defined at that point, every added CSR is validly signed and its AS is held; applied entirely (returned definitions == replay of the returned events), every added definition present afterwards. Routes::process_updates on the real text: refused exactly when some entry is invalid at its turn (unknown removal; invalid max length, prefix not held, already present with the same comment) -- both directions, for deltas of any length including duplicates inside one delta; an accepted delta returns the specified state and its events replay to it; a refused delta returns only the error. max_length_valid equals the statement definition. AspaDefinitions::process_updates: accepted only if every entry is well-formed (non-empty, no duplicates, customer not a provider) and its customer AS is held and every removal names a customer present at its turn; every refusal has such a reason; an accepted delta is applied entirely (replaying the returned events gives the returned definitions, as provider sets). Child add/update: see c05_child.',
     'level_note': 'ResourceSet::contains_roa_address / contains_asn uninterpreted (held); ASPA: the two provider-diff iterator chains are replaced by an assumed set-difference function (R14) and AspaDefinition::{apply_update, customer_used_as_provider, contains_duplicate_providers} carry assumed set-level contracts; String equality axiom; HashMap key model for RoaPayloadJsonMapKey; derived Clone assumed value-preserving (R11); CertAuth command layer above is unverified (A8).',
     'design_ref': 'DESIGN.md section 10.4 (as built) and section 5 / C05',
@@ -42,7 +43,7 @@ REGISTRY['C09'] = {
     'not_covered': ['claim_scheduled_pending_task outside its fold step (list_keys/into_iter/fold glue, move to running)', 'reschedule_long_running_tasks (assumed: moves a subset of the running entries to pending)', 'an ident is determined by the parts it was built from (assumed in c09_taskname)', 'crash while a task is running (file system)', 'eventual execution (liveness)'],
 }
 REGISTRY['C10'] = {
-    'v': ['c10_current', 'c10_staged', 'c10_content', 'c11_snapshot', 'c12_rfc8181'],
+    'v': ['c10_current', 'c10_staged', 'c10_content', 'c11_snapshot', 'c12_rfc8181', 'c10_objkey'],
     'k': [],
     'level_text': 'Publication-server data-structure contracts on the real text: delta accepted exactly when every URI is in the jail, publishes are new and updates/withdraws match the stated hash (iff, any delta length); applying a delta equals the map-level spec (whole-map equality, so untouched objects are proved untouched); staged-on-staged merge follows the 12-case per-URI table; list content = current + staged. Cross-publisher isolation through HTTP and interleaving with RRDP writes are not decided.',
     'level_note': 'uri::Rsync / Base64 / Hash opaque (is_parent_of, to_hash uninterpreted); HashMap key model; HashMap::get_mut assumed spec; RepositoryManager/HTTP layers unverified (A8).',
@@ -58,7 +59,7 @@ REGISTRY['C11'] = {
     'not_covered': ['that the snapshot after an update is the fold of the per-publisher steps over ALL publishers (the per-publisher step is verified: the staged changes of a publisher go to the snapshot and, unchanged, to the next delta; the loop is verified for serial / delta chain / staging area only)', 'files on disk, hashes, notification switch, rsync tmp/current/old switch', 'apply_rrdp_staged frame (HashMap::entry)'],
 }
 REGISTRY['C12'] = {
-    'v': ['c12_rfc6492', 'c12_rfc8181', 'c03_child_revoke'],
+    'v': ['c12_rfc6492', 'c12_rfc8181', 'c03_child_revoke', 'c12_publisher', 'c02_issue'],
     'k': [],
     'level_text': 'Control-flow contracts: a child key revocation acts only on a key that the SENDING child has in use (not on a sibling\'s key), under that child\'s class-name mapping. Validate-before-process capability contracts for the RFC 6492 / RFC 8181 endpoints are listed per unit. The CMS/crypto itself is assumed sound.',
     'level_note': 'ProvisioningCms/PublicationCms::validate assumed sound (rpki-rs + OpenSSL); decoder robustness against bit flips not decided.',
@@ -100,9 +101,9 @@ REGISTRY['C17'] = {
     'not_covered': ['the iterator chains of categorise_roa around the verified predicates, the too-permissive heuristic, AS0 handling', 'prefix-tree lookup (RisWhois) vs brute force', 'suggestion post-processing over large sets'],
 }
 REGISTRY['C16'] = {
-    'v': ['c16_parsers'],
-    'k': ['k_api_roa'],
-    'level_text': 'Absence of arithmetic overflow, bad shifts, slice/index out of bounds and unwrap-None in the client-reachable pure helpers (api::roa prefix/payload algebra; more groups below), decided by CBMC over the full input domain of loop-free code (complete), string parsers bounded and labelled so. On the extracted text, for inputs of any length (Verus): the IPv4 / IPv6 prefix parsers never underflow and only produce prefixes that satisfy the type invariant the Kani harnesses assume (length within the width of the family, host bits zero), and BgpSecAsnKey::from_str never indexes out of bounds or unwraps None for any number of parts (std splitting / number parsing are unconstrained externals). The CMS/XML/JSON decoders that take the raw bytes are not decided.',
+    'v': ['c16_parsers', 'c10_staged'],
+    'k': ['k_api_roa', 'k_history'],
+    'level_text': 'Absence of arithmetic overflow, bad shifts, slice/index out of bounds and unwrap-None in the client-reachable pure helpers (api::roa prefix/payload algebra; more groups below), decided by CBMC over the full input domain of loop-free code (complete), string parsers bounded and labelled so. On the extracted text, for inputs of any length (Verus): the IPv4 / IPv6 prefix parsers never underflow and only produce prefixes that satisfy the type invariant the Kani harnesses assume (length within the width of the family, host bits zero), and BgpSecAsnKey::from_str never indexes out of bounds or unwraps None for any number of parts (std splitting / number parsing are unconstrained externals). The merge of a publication delta into the staging area (StagedElements::merge_new_elements, all arms, unit c10_staged) has no reachable panic; the paging of the command history never panics for any rows / offset from the request path (Kani, bounded to an empty record list; finding F11, fixed). The CMS/XML/JSON decoders that take the raw bytes are not decided.',
     'level_note': 'Harness inputs are built by constructors encoding the type invariants; overflow judged as in a debug build; rpki-rs/bcder/serde_json/hyper decoders are outside.',
     'technique': 'Kani function contracts and full-domain loop-free harnesses (CBMC) on the real crate + Verus safety obligations on the extracted parser text',
     'design_ref': 'DESIGN.md section 10.4 (as built) and section 5 / C16',
